@@ -94,8 +94,12 @@ func (vc *VC) callMods(c *ssa.CallCommon, li *loopInfo) {
 		}
 		return
 	}
-	key, _, disp := vc.calleeKey(c)
-	if fc := vc.lookupContract(key); fc != nil {
+	key, cfn, disp := vc.calleeKey(c)
+	fc := vc.lookupContract(key)
+	if fc == nil && cfn != nil {
+		fc = vc.lookupContract(cfn.String())
+	}
+	if fc != nil {
 		if !fc.HasMod {
 			li.modAll = true
 			return
@@ -162,7 +166,11 @@ func (vc *VC) doCall(c *ssa.CallCommon, v ssa.Value, st *State, pos token.Pos) *
 	if h := vc.specialCall(key, c, args, v, st, pos); h != nil {
 		return h
 	}
-	if fc := vc.lookupContract(key); fc != nil {
+	fc := vc.lookupContract(key)
+	if fc == nil && fn != nil {
+		fc = vc.lookupContract(fn.String())
+	}
+	if fc != nil {
 		return vc.applyContract(fc, fn, c, args, v, st, pos)
 	}
 	if key != "" && isPureExternal(key) {
@@ -290,6 +298,10 @@ func (vc *VC) applyContract(fc *FuncContract, fn *ssa.Function, c *ssa.CallCommo
 			kind = "trusted"
 		}
 		vc.addFact(kind, imp(vc.guard(), vc.trBool(e.E, post)))
+	}
+	// ghost instrumentation: definitional updates of ghost variables performed by the call
+	for _, e := range fc.GhostDefs {
+		vc.addFact("assume", imp(vc.guard(), vc.trBool(e.E, post)))
 	}
 	return res
 }
@@ -573,16 +585,49 @@ func (vc *VC) frameCheck(st *State, pos token.Pos) {
 		if st.heap[k] == entry {
 			continue
 		}
-		if strings.HasPrefix(k, "#box") {
+		if strings.HasPrefix(k, "#box") || strings.HasPrefix(k, "#iter") {
 			continue
 		}
-		var ps []string
-		for _, r := range byKey[k] {
-			ps = append(ps, r.pred("l!f"))
-		}
-		cond := fmt.Sprintf("(forall ((l!f Loc)) (=> (and (< (rt l!f) %s) (not %s)) (= (select %s l!f) (select %s l!f))))", vc.entrySt.nextId, or(ps...), st.heap[k], entry)
-		vc.oblige("frame", k, cond, pos)
+		vc.oblige("frame", k, vc.frameCond(k, st.heap[k], byKey[k], false), pos)
 	}
+}
+
+// frameCond: locations allocated before entry and outside the modifies regions hold their entry values in heap version h.
+func (vc *VC) frameCond(k, h string, regs []modRegion, withPattern bool) string {
+	entry := vc.heapGet(vc.entrySt, k, vc.heapElem[k])
+	var ps []string
+	for _, r := range regs {
+		ps = append(ps, r.pred("l!f"))
+	}
+	body := fmt.Sprintf("(=> (and (< (rt l!f) %s) (not %s)) (= (select %s l!f) (select %s l!f)))", vc.entrySt.nextId, or(ps...), h, entry)
+	if withPattern {
+		return fmt.Sprintf("(forall ((l!f Loc)) (! %s :pattern ((select %s l!f))))", body, h)
+	}
+	return fmt.Sprintf("(forall ((l!f Loc)) %s)", body)
+}
+
+// loopFrameKeys: heap keys havocked by the loop for which an automatic frame invariant applies.
+func (vc *VC) loopFrame(li *loopInfo) (keys []string, byKey map[string][]modRegion, ok bool) {
+	fc := vc.fc
+	if fc == nil || !fc.HasMod || li.modAll {
+		return nil, nil, false
+	}
+	env := vc.newEnv(vc.entrySt, vc.entrySt)
+	regions, all := vc.modRegions(fc, env)
+	if all {
+		return nil, nil, false
+	}
+	byKey = map[string][]modRegion{}
+	for _, r := range regions {
+		byKey[r.key] = append(byKey[r.key], r)
+	}
+	for _, k := range sortedKeys(li.mods) {
+		if strings.HasPrefix(k, "#") || vc.heapElem[k] == nil {
+			continue
+		}
+		keys = append(keys, k)
+	}
+	return keys, byKey, true
 }
 
 // ---------------------------------------------------------------------------
